@@ -500,32 +500,9 @@ func c02Brackets(w *World, r *Report) {
 	r.Check(why == "", "R02.6", "EvalLocPath skips the key-name path", efd.Pos(), "inside a predicate: increment the toggle, resolve the path iff the toggle is then even (the key name is not resolved to a value); outside: iff the previous predicate asks for it", why)
 	// step instruction: literal when predicateCount > 0 && toggle%2 == 0
 	cnt := w.Method("xpath", "ProgBuilder", "CodeNameTest")
-	cfd, cp := w.FuncDecl(cnt)
-	cl := closuresIn(cfd)[0]
-	var nameParity int64 = -1
-	hasDepth := false
-	ast.Inspect(cl.Body, func(n ast.Node) bool {
-		is, ok := n.(*ast.IfStmt)
-		if !ok {
-			return true
-		}
-		for _, c := range flattenAnd(is.Cond) {
-			be, ok := ast.Unparen(c).(*ast.BinaryExpr)
-			if !ok {
-				continue
-			}
-			if be.Op == token.GTR && fieldOfSel(cp, be.X) == pc {
-				hasDepth = true
-			}
-			if be.Op == token.EQL {
-				if rem, ok := ast.Unparen(be.X).(*ast.BinaryExpr); ok && rem.Op == token.REM && fieldOfSel(cp, rem.X) == toggle {
-					nameParity, _ = ConstInt(cp, be.Y)
-				}
-			}
-		}
-		return true
-	})
-	r.Check(hasDepth && nameParity == 0, "R02.6", "step instruction key-name test", cl.Pos(), "inside a predicate and toggle even ⇒ the name is the key name (literal); complementary to EvalLocPath's odd-skip", fmt.Sprintf("the step instruction treats a name as key name on parity %d (depth test present: %v); must be the complement of EvalLocPath's test", nameParity, hasDepth))
+	cfd, _ := w.FuncDecl(cnt)
+	stepWhy := c02StepKeyName(w, cnt, pc, toggle)
+	r.Check(stepWhy == "", "R02.6", "step instruction key-name test", cfd.Pos(), "inside a predicate and toggle even ⇒ the name is the key name (literal); complementary to EvalLocPath's odd-skip", "the step instruction does not treat a name as key name exactly when it is the first path inside a predicate: "+stepWhy)
 	// PREDSTART / PREDEND
 	ps := w.Method("xpath", "ProgBuilder", "CodePredStart")
 	pfd, pp := w.FuncDecl(ps)
@@ -1134,4 +1111,82 @@ func c02EvalLocPathGate(w *World) (*types.Var, string) {
 		return toggle, "EvalLocPath does not skip exactly the first path of a predicate (the key name): " + msg
 	}
 	return toggle, ""
+}
+
+// c02StepKeyName: in the step instruction (the closure CodeNameTest builds, or
+// a function only it uses) the name is pushed as a literal exactly when
+// predicateCount > 0 and the toggle is even, and appended to the path
+// otherwise.
+func c02StepKeyName(w *World, cnt *types.Func, pc, toggle *types.Var) string {
+	root := w.SSAFunc(cnt)
+	if root == nil {
+		return "CodeNameTest not found"
+	}
+	newLit := w.Func("xpath", "NewLiteralDatum")
+	pushElem := w.Method("xpath", "PathStack", "PushElem")
+	sym := NewSym(w)
+	for _, g := range allFuncs(w.SSAPkg("xpath")) {
+		if !w.OwnedBy(g, root) || len(g.Params) == 0 {
+			continue
+		}
+		var lit, elem *ssa.BasicBlock
+		for _, b := range g.Blocks {
+			for _, in := range b.Instrs {
+				if c, ok := in.(*ssa.Call); ok && c.Call.StaticCallee() != nil {
+					switch c.Call.StaticCallee().Object() {
+					case types.Object(newLit):
+						lit = b
+					case types.Object(pushElem):
+						elem = b
+					}
+				}
+			}
+		}
+		if lit == nil || elem == nil {
+			continue
+		}
+		isLoadOf := func(v ssa.Value, fld *types.Var) bool {
+			ld, ok := v.(*ssa.UnOp)
+			if !ok || ld.Op != token.MUL {
+				return false
+			}
+			fa, ok := ld.X.(*ssa.FieldAddr)
+			return ok && isFieldAddrOf(fa, fld)
+		}
+		classify := func(a *pcAtom) string {
+			bo, ok := a.v.(*ssa.BinOp)
+			if !ok || a.subj == "" {
+				return ""
+			}
+			for _, side := range []ssa.Value{bo.X, bo.Y} {
+				if isLoadOf(side, pc) {
+					if a.set.equal(ISet{{1, fullISet[0].hi}}) {
+						return "inpred"
+					}
+					if a.set.equal(ISet{{fullISet[0].lo, 0}}) {
+						return "!inpred"
+					}
+				}
+				if rem, ok := side.(*ssa.BinOp); ok && rem.Op == token.REM && isLoadOf(rem.X, toggle) {
+					if two, ok := intConstOf(rem.Y); ok && two == 2 {
+						if a.set.equal(isetOf(0)) {
+							return "even"
+						}
+						if a.set.equal(isetOf(1)) {
+							return "!even"
+						}
+					}
+				}
+			}
+			return ""
+		}
+		if msg := pcCompare(sym.PathCond(g.Blocks[0], lit, nil), classify, func(env map[string]bool) bool { return env["inpred"] && env["even"] }); msg != "" {
+			return "the literal is pushed under another condition: " + msg
+		}
+		if msg := pcCompare(sym.PathCond(g.Blocks[0], elem, nil), classify, func(env map[string]bool) bool { return !(env["inpred"] && env["even"]) }); msg != "" {
+			return "the path element is appended under another condition: " + msg
+		}
+		return ""
+	}
+	return "no function of CodeNameTest both pushes a literal and appends a path element"
 }
